@@ -128,6 +128,10 @@ def in_child(fn, *args, timeout=120, environ=None):
         code = 0
         try:
             os.close(r)
+            if not os.environ.get("EUPS_VERIF_DEBUG"):
+                dn = os.open(os.devnull, os.O_WRONLY)     # eups chatters on stdout/stderr
+                os.dup2(dn, 1)
+                os.dup2(dn, 2)
             if environ is not None:
                 os.environ.clear()
                 os.environ.update(environ)
